@@ -8,6 +8,7 @@ From Coq Require Import NArith Bool List.
 Import ListNotations.
 From XetModel Require Import Base.Codec Gen.CrashFacts Model.Merkle Model.Shard Model.Crash Proofs.CrashProofs Proofs.CrashHistoryProofs.
 From XetModel Require Import Proofs.CodecProofs Proofs.ShardWholeProofs Proofs.ShardDedupWholeProofs Proofs.MergeProofs Proofs.MergeAllProofs.
+From XetModel Require Import Proofs.ConsolidateWholeProofs.
 Open Scope N_scope.
 
 (* after any prefix of the effects of a safe plan, every file under a final name is complete and consistent with its
@@ -110,9 +111,30 @@ Theorem C19_group_plan_frame : forall (final : fname -> bool) f t mname m dels, 
   (forall q, q <> t -> q <> mname -> ~ In q dels -> flookup f' q = flookup f q).
 Proof. exact group_plan_frame. Qed.
 
+(* the plan of a whole directory, as one statement.  The listed shards lie under pairwise different final names; the directory is
+   consistent and a name has one good content (names are content hashes); for every group the grouping loop forms (groups_of
+   mirrors it) the merged shard is good for its name, finally named, and holds every member's records (for serialized shards:
+   C10_merge_all_covers_inputs, with C10_group_unions_are_wellformed for its premise); temporary names are not final.  Then
+   the whole plan -- each group's write and unlinks, group after group -- is safe: with C19_crash_at_any_point, a stop after
+   any number of its effects leaves the directory consistent and everything retrievable before still retrievable *)
+Theorem C19_whole_consolidation_plan_is_safe : forall (R : Type) (final : fname -> bool) (good : fname -> list N -> Prop) (recs : list N -> R -> Prop),
+  (forall p c c', good p c -> good p c' -> c = c') ->
+  forall fuel target shards temps finished pl fin f,
+  consolidate fuel target shards temps finished = Some (pl, fin) -> MergedOk R final good recs (groups_of fuel target shards) ->
+  Consistent final good f -> InDir final f shards -> NoDup (map fst shards) -> (forall t, In t temps -> final t = false) ->
+  SafePlan R final good recs f pl.
+Proof. exact consolidate_plan_safe. Qed.
+Example C19_whole_plan_example :
+  exists m pl fin, consolidate 3 1073741824 cw_dir [cw_t] [] = Some (pl, fin) /\
+    pl = [PWrite cw_t (shard_name m) [m]; PUnlink (shard_name cw_A); PUnlink (shard_name cw_B)] /\
+    MergedOk skey is_shard_final (fun p c => p = shard_name c) shard_recs (groups_of 3 1073741824 cw_dir) /\
+    NoDup (map fst cw_dir) /\ is_shard_final cw_t = false.
+Proof. exact whole_plan_example. Qed.
+
 Print Assumptions C19_crash_at_any_point.
 Print Assumptions C19_group_write_before_delete.
 Print Assumptions C19_consolidation_plan_structure.
 Print Assumptions C19_any_history_of_interrupted_operations.
 Print Assumptions C19_consolidating_two_shards_is_safe.
 Print Assumptions C19_consolidating_a_group_is_safe.
+Print Assumptions C19_whole_consolidation_plan_is_safe.
